@@ -7,7 +7,7 @@ ALL_BE = [0, 1, 2, 3, 4, 5]
 
 
 def oracle_units(chk, progs, backends, tag, proj=emit.KINDS_ALL, steps_fn=None, bfs_depth=6, max_confs=60,
-                 check_result=True, check_post=True, check_flags=False, probe=None, check_introspect=False, opts=None, timeout=45, unwind=6, conf_filter=None,
+                 check_result=True, check_post=True, check_flags=False, probe=None, check_introspect=False, check_queue=False, opts=None, timeout=45, unwind=6, conf_filter=None, strats=None,
                  bfs_steps_fn=None, extra_leaf=None, extra_pre=None, cbmc_extra=()):
     for pname in progs:
         my_backends = backends
@@ -28,7 +28,7 @@ def oracle_units(chk, progs, backends, tag, proj=emit.KINDS_ALL, steps_fn=None, 
             confs, edges = model.bfs(prog, bsteps, max_depth=bfs_depth, max_confs=max_confs)
             confs = [c for c in confs if (conf_filter(c[0]) if conf_filter else c[0].started)]
             cpp = emit.emit_cpp(prog, opts)
-            h, index = emit.emit_harness(prog, confs, steps, tag, proj=proj, check_result=check_result, check_post=check_post, check_flags=check_flags, probe=probe, check_introspect=check_introspect,
+            h, index = emit.emit_harness(prog, confs, steps, tag, proj=proj, check_result=check_result, check_post=check_post, check_flags=check_flags, probe=probe, check_introspect=check_introspect, check_queue=check_queue,
                                          extra_leaf=extra_leaf, extra_pre=extra_pre)
             chk.model_edges += sum(ix['paths'] for ix in index)
             for be in bes:
@@ -37,7 +37,7 @@ def oracle_units(chk, progs, backends, tag, proj=emit.KINDS_ALL, steps_fn=None, 
                 u.spec = {'prog': prog.name, 'tag': tag}
                 chk.add_unit(u)
                 for hi in range(len(index)):
-                    chk.jobs.append(Job(u, hi, unwind=unwind, timeout=timeout, extra=cbmc_extra))
+                    chk.jobs.append(Job(u, hi, unwind=unwind, timeout=timeout, extra=cbmc_extra, strats=strats))
             chk.bounds.setdefault('programs', {})[prog.name] = {'configurations': len(confs), 'model_paths': sum(ix['paths'] for ix in index),
                                                                 'guard_sites': len(model.guard_sites(prog)), 'events': len(prog.events)}
     chk.bounds.update({'symbolic_steps_per_query': 1, 'payload_bits': 32, 'unwind': unwind, 'queue_capacity': 4,
@@ -229,6 +229,25 @@ def C03(tier, seed):
     return chk
 
 
+def C04(tier, seed):
+    chk = Check('C04', tier, seed)
+    def steps_fn(prog): return [('ev', e) for e in prog.events] + [('enq', 'e1'), ('enq', 'e3'), ('execq',), ('exec1',)]
+    def bsteps(prog): return [('start',)] + [('ev', e) for e in prog.events] + [('enq', 'e0', '0'), ('enq', 'e1', '0'), ('enq', 'e2', '0'), ('enq', 'e3', '0'), ('exec1',)]
+    # backmp11: machine Q, up to 2 pending events in the pre-state and up to 3 submissions in the step
+    oracle_units(chk, ['Q'], [3] + ([4] if tier == 'thorough' else []), 'C04', proj=STD, check_queue=True, opts={'queue_api': True},
+                 steps_fn=steps_fn, bfs_steps_fn=bsteps, conf_filter=lambda c: c.started and len(c.queue) <= 2, bfs_depth=5,
+                 max_confs=(60 if tier == 'thorough' else 20), timeout=90, unwind=16, strats=['nkG', 'pk'])
+    # back / back11: machine Q2 (one nested submission per top-level call, <= 1 pending): draining two or more boost::function entries gives no
+    # verdict (DESIGN 9), so FIFO order among several pending events is not decided for these back-ends
+    oracle_units(chk, ['Q2'], [0, 2], 'C04', proj=STD, check_queue=True, opts={'queue_api': True},
+                 steps_fn=lambda prog: [('ev', e) for e in prog.events] + [('enq', 'e1'), ('exec1',)],
+                 bfs_steps_fn=lambda prog: [('start',)] + [('ev', e) for e in prog.events] + [('enq', 'e1', '0'), ('exec1',)],
+                 conf_filter=lambda c: c.started and len(c.queue) <= 1, bfs_depth=5, max_confs=16, timeout=90, unwind=8, strats=['nkG', 'pk'])
+    chk.bounds.update({'pending_events_in_pre_state': 'backmp11: 0..2, back/back11: 0..1 (payload 0, submitted through enqueue_event from outside)',
+                       'submissions_per_step': 'backmp11: 0..3 from guard / action / entry / exit; back/back11: chains of single submissions'})
+    return chk
+
+
 BP_TYPES = {0: 'Triv<1> (5 bytes)', 1: 'Triv<44>', 2: 'Triv<52> (56 bytes: fills the inline buffer)', 3: 'Triv<53> (60 bytes: heap)',
             4: 'TrivA<8,16> (alignment 16: heap)', 5: 'TrivA<40,64> (alignment 64: heap)', 6: 'Triv<196> (200 bytes: heap)',
             7: 'NonTriv inline (user copy/move/dtor, self pointer)', 8: 'NonTriv 100 bytes (heap)', 9: 'ThrowMove (move not noexcept: heap)'}
@@ -261,4 +280,4 @@ def C20(tier, seed):
     return chk
 
 
-PROPS = {f.__name__: f for f in (C01, C02, C03, C06, C07, C08, C09, C10, C11, C13, C17, C20)}
+PROPS = {f.__name__: f for f in (C01, C02, C03, C04, C06, C07, C08, C09, C10, C11, C13, C17, C20)}
